@@ -110,9 +110,18 @@ func findKeyEvidence(e *Engine, fn *ssa.Function, reqKeyParam int, depth int) ke
 		if !ok {
 			continue
 		}
-		switch cname(call) {
+		name := cname(call)
+		cargs := call.Call.Args
+		// a boolean helper that only wraps bytes.Equal of two of its parameters
+		if h := call.Call.StaticCallee(); h != nil && h.Blocks != nil && e.InModule(h) {
+			if i, j, ok := wrapsBytesEqual(h); ok && i < len(cargs) && j < len(cargs) {
+				name = "bytes.Equal"
+				cargs = []ssa.Value{cargs[i], cargs[j]}
+			}
+		}
+		switch name {
 		case "bytes.Equal":
-			a, b := call.Call.Args[0], call.Call.Args[1]
+			a, b := cargs[0], cargs[1]
 			if (isReq(a) && isStored(b)) || (isReq(b) && isStored(a)) {
 				ev.edges = append(ev.edges, boolEdges(fn, call, true)...)
 				ev.values[call] = true
@@ -192,6 +201,37 @@ func helperReturnsOnlyMatchedKey(e *Engine, h *ssa.Function, p int, depth int) b
 		}
 	}
 	return n > 0
+}
+
+// wrapsBytesEqual: h(…) bool returns, on every return, bytes.Equal(p_i, p_j)
+// of two of its own parameters.
+func wrapsBytesEqual(h *ssa.Function) (int, int, bool) {
+	res := h.Signature.Results()
+	if res.Len() != 1 || shortType(res.At(0).Type()) != "bool" {
+		return 0, 0, false
+	}
+	pi, pj := -1, -1
+	rets := returnsOf(h)
+	if len(rets) == 0 {
+		return 0, 0, false
+	}
+	for _, ret := range rets {
+		c, ok := retVal(ret, 0).(*ssa.Call)
+		if !ok || cname(c) != "bytes.Equal" {
+			return 0, 0, false
+		}
+		a, okA := c.Call.Args[0].(*ssa.Parameter)
+		b, okB := c.Call.Args[1].(*ssa.Parameter)
+		if !okA || !okB {
+			return 0, 0, false
+		}
+		i, j := paramIndex(a), paramIndex(b)
+		if pi >= 0 && (pi != i || pj != j) {
+			return 0, 0, false
+		}
+		pi, pj = i, j
+	}
+	return pi, pj, pi >= 0
 }
 
 func errKeyExistsConst(e *Engine) *types.Const {
